@@ -269,16 +269,24 @@ func C19(c *core.Ctx) {
 				}})
 			case "sod":
 				ver, nh := x[1].(int), x[2].(int)
-				spec, err := lds.ShapeSOD(ver, nh, rnd)
+				asc := core.Str(x[3]) == "ascending"
+				spec, err := lds.ShapeSOD(ver, nh+1, asc, rnd) // nh+1: at least two hashes, so that an order exists
 				if err != nil {
 					core.Infra("C19: %v", err)
 				}
 				em := exp.(map[string]any)
-				cases = append(cases, c19case{fmt.Sprintf("sod/%d/%d", ver, nh), "SOD", spec, lds.EncodeOpts{}, func(got lds.View) []string {
+				cases = append(cases, c19case{fmt.Sprintf("sod/%d/%d/%v", ver, nh+1, asc), "SOD", spec, lds.EncodeOpts{}, func(got lds.View) []string {
 					var out []string
 					lso := asMap(got["ldsSecurityObject"])
-					if h, _ := lso["dataGroupHashValues"].([]any); len(h) != em["hashes"].(int) {
-						out = append(out, fmt.Sprintf("ldsSecurityObject.dataGroupHashValues: %d in the file, %d in the view", em["hashes"].(int), len(h)))
+					h, _ := lso["dataGroupHashValues"].([]any)
+					if len(h) != em["hashes"].(int)+1 {
+						out = append(out, fmt.Sprintf("ldsSecurityObject.dataGroupHashValues: %d in the file, %d in the view", em["hashes"].(int)+1, len(h)))
+					}
+					for i := range h { // file order
+						if i < len(spec.SOD.Hashes) && fmt.Sprint(asMap(h[i])["dataGroupNumber"]) != fmt.Sprint(spec.SOD.Hashes[i].DG) {
+							out = append(out, fmt.Sprintf("ldsSecurityObject.dataGroupHashValues[%d]: not the %d-th entry of the file (the list is a SEQUENCE OF: order is content)", i, i+1))
+							break
+						}
 					}
 					if _, has := lso["ldsVersionInfo"]; has != em["versionInfo"].(bool) {
 						out = append(out, fmt.Sprintf("ldsSecurityObject.ldsVersionInfo: presence %v, specified %v", has, em["versionInfo"].(bool)))
@@ -498,7 +506,7 @@ func C19(c *core.Ctx) {
 		if s.vi {
 			ver = 1
 		}
-		specS, _ := lds.ShapeSOD(ver, 2, rnd)
+		specS, _ := lds.ShapeSOD(ver, 2, rnd.Intn(2) == 0, rnd)
 		add("SOD", specS)
 		want := lds.ExpectedSummary(files)
 		for _, k := range []string{"issuingState", "nationality"} {
